@@ -5,7 +5,7 @@ C06 — safety of the skeleton reader, part 1: the framework and the primitives.
 
   * success `(v, p')`: the cursor advanced by at least `k` bytes and it is still inside the stream
     (`p' ≤ d.length`) unless it did not move at all (`p' = p`: a lenient read at or behind the end);
-  * failure `e`: `e` is one of the three ordinary exception classes (`Err.other`, the fuel
+  * failure `e`: `e` is one of the four ordinary exception classes (`Err.other`, the fuel
     exhaustion value of `readWhileFuel`, is not among them).
 
 `Good.bind` composes it along a `do` block (the `k`s subtract: ask for what you need).
@@ -16,7 +16,7 @@ namespace PsdVerif.Safe
 open PsdVerif PsdVerif.Codec PsdVerif.Psd
 
 /-- the exception classes the skeleton reader can raise -/
-def ordinary : List Err := [.ioError, .valueError, .assertionError]
+def ordinary : List Err := [.ioError, .valueError, .assertionError, .overflowError]
 
 def ErrIn {α : Type} (r : Except Err α) : Prop := ∀ e, r = .error e → e ∈ ordinary
 
@@ -28,6 +28,7 @@ def Good {α : Type} (k : Nat) (d : B) (p : Nat) (r : Except Err (α × Nat)) : 
 theorem io_mem : Err.ioError ∈ ordinary := by decide
 theorem value_mem : Err.valueError ∈ ordinary := by decide
 theorem assertion_mem : Err.assertionError ∈ ordinary := by decide
+theorem overflow_mem : Err.overflowError ∈ ordinary := by decide
 theorem other_not_mem : Err.other ∉ ordinary := by decide
 
 /-! ### `ErrIn` -/
@@ -172,7 +173,9 @@ theorem readPy_good (n : Int) (d : B) (p : Nat) : Good 0 d p (readPy n d p) := b
   unfold readPy
   split
   · exact readAll_good d p
-  · exact readUpTo_good _ d p
+  · split
+    · exact overflow_mem
+    · exact readUpTo_good _ d p
 
 theorem readU_ok {w : Nat} {d : B} {p : Nat} {n : Nat} {p' : Nat} (h : readU w d p = .ok (n, p')) :
     p' = p + w ∧ p + w ≤ d.length := by
@@ -233,18 +236,20 @@ theorem readLenBlock_ok {skip w pad : Nat} {d : B} {p : Nat} {x : B} {p' : Nat}
     · rename_i n p1 h1
       split at h
       · cases h
-      · rename_i x' p2 h2
-        split at h
+      · split at h
         · cases h
-        · split at h
+        · rename_i x' p2 h2
+          split at h
           · cases h
-          · rename_i u p3 h3
-            cases h
-            have a0 := readN_ok h0
-            have a1 := readU_ok h1
-            have a2 := readUpTo_ok h2
-            have a3 := (readPadding_good n pad d p2).of_ok h3
-            omega
+          · split at h
+            · cases h
+            · rename_i u p3 h3
+              cases h
+              have a0 := readN_ok h0
+              have a1 := readU_ok h1
+              have a2 := readUpTo_ok h2
+              have a3 := (readPadding_good n pad d p2).of_ok h3
+              omega
 
 theorem readLenBlock_good (skip w pad : Nat) (d : B) (p : Nat) :
     Good (skip + w) d p (readLenBlock skip w pad d p) := by
@@ -264,15 +269,17 @@ theorem readLenBlock_good (skip w pad : Nat) (d : B) (p : Nat) :
         cases h; exact (readU_good w d p0).errIn _ h1
       · rename_i n p1 h1
         split at h
-        · rename_i e2 h2
-          cases h; exact (readUpTo_good n d p1).errIn _ h2
-        · rename_i x' p2 h2
-          split at h
-          · cases h; exact io_mem
-          · split at h
-            · rename_i e3 h3
-              cases h; exact (readPadding_good n pad d p2).errIn _ h3
-            · cases h
+        · cases h; exact overflow_mem
+        · split at h
+          · rename_i e2 h2
+            cases h; exact (readUpTo_good n d p1).errIn _ h2
+          · rename_i x' p2 h2
+            split at h
+            · cases h; exact io_mem
+            · split at h
+              · rename_i e3 h3
+                cases h; exact (readPadding_good n pad d p2).errIn _ h3
+              · cases h
 
 theorem readPascal_ok {pad : Nat} {d : B} {p : Nat} {x : B} {p' : Nat}
     (h : readPascal pad d p = .ok (x, p')) : p + 1 + x.length ≤ p' ∧ p' ≤ d.length := by
